@@ -4,11 +4,41 @@ NOTES = ("All checks: ./check <id> --tier quick|thorough; setup builds the Coq d
          "and compiles the driver. known_findings.json lists recorded defects (kind known) and repaired ones (kind fixed).")
 NOT_APPLICABLE = {}
 # built, but their fix stage is in progress (model already in the repaired state, patches not yet committed to /repo)
-PENDING = {"C08", "C09", "C12", "C13"}
+PENDING = {"C01", "C08", "C09", "C12", "C13", "C14"}
 COMMON_NOTE = ("Trusted: Coq 8.16.1 kernel (+vm_compute), extraction (ExtrOcamlBasic, ExtrOcamlString), OCaml driver, the Python harness, "
                "CPython/torch as referents. Theorems are about the hand-written model; the model<->code tie is this run's differential "
                "correspondence, bounded by its generators (distribution in the evidence). ")
 CHECKS = {
+    "C01": {
+        "text": ("Proof (Coq): for plain TensorDict trees (tensor leaves, nested tensordicts, NonTensorData entries; ANY depth and rank, size-0/1 dims, "
+                 "names, two devices) a Gallina transcription `step` of every public mutator in the property's list (set / set_ / setdefault / update / "
+                 "del / pop / popitem / rename_key_ / batch_size and names assignment / refine_names / auto_batch_size_ / in-place flatten_keys, "
+                 "unflatten_keys, select, exclude / create_nested / clear; raising calls return the state the code leaves behind) preserves coherence "
+                 "(leading dims = batch size, nested batch extends the parent's, entries on the container's device, one name per batch dim) from ANY "
+                 "coherent state, through ANY nested handle, for ok and raising outcomes, and hence along EVERY finite history (induction over the "
+                 "op list), outside the regions of the recorded defects, each exhibited by a kernel-checked refutation witness. Separate theorems: "
+                 "ill-shaped tensors are rejected and not stored; accepted tensors are stored on the container's device; the names and batch-size "
+                 "setters keep coherence on success and on failure. Tie: the model is stepped from the real pre-state after every call (~44k "
+                 "steps per quick run); independently a recursive snapshot of the real object is checked by `coherentb` after EVERY call including "
+                 "raising ones, also on lazy stacks, tensorclasses, NonTensorStack and index writes, which the model does not cover."),
+        "note": COMMON_NOTE + "Lazy stacks, tensorclasses, index writes and update_batch_size are covered by the model-independent snapshot oracle only. "
+                "Known findings in findings.d/C01.json.",
+        "technique": "Coq invariant proof (tree induction, induction over op lists) + per-step extracted-model differential + snapshot oracle with shrinking",
+    },
+    "C14": {
+        "text": ("Proof (Coq) over a free term algebra (so 'same value' means 'same for every module function'), for ALL module graphs, environments and "
+                 "key sets: a TensorDictSequential returns, under every advertised out key, the term the plain fold of its leaf modules computes; "
+                 "a tensordict holding the advertised in_keys never makes it read a missing key; out_keys are exactly the written keys, last writer "
+                 "wins; entries outside out_keys are untouched (module footprint); select_subsequence slices compute identical terms for the "
+                 "retained out keys and are again regular chains; `_dist_sample` follows the InteractionType contract on the whole finite grid of "
+                 "interaction type x distribution capabilities. `_refuted` + `_partial` pairs for the recorded defects. Tie: extracted model vs "
+                 "the real modules on random graphs where every module computes an injective integer hash of (module id, output index, inputs) — "
+                 "equal numbers <=> equal terms — for every subset of in/out keys, every inplace mode, tensordict_out, kwargs dispatch; recording "
+                 "stub distribution for the probabilistic modules; independent 12-line Python fold as oracle."),
+        "note": COMMON_NOTE + "Distribution numerics are out of scope (recording stub); nested-container aliasing, set_skip_existing and the probabilistic "
+                "key plumbing are covered by the oracle only. Known findings in findings.d/C14.json.",
+        "technique": "Coq theorems by induction over module graphs on a free term algebra + extracted-model differential + interned-term oracle",
+    },
     "C03": {
         "text": ("Proof (Coq): for batch shapes of ANY rank and ANY Ellipsis-free index tuple (ints, slices, None, integer arrays of any shape, "
                  "0-dim integer tensors, boolean masks of any rank, any number of advanced indices anywhere) that torch accepts, the batch size the "
